@@ -40,6 +40,9 @@ or flat), `Legacy.emitOld` the typed 0.0.39 document for a native document (`Mod
   agreement lemmas of the hand model are re-proved from any start state without live objects
   (`Py/TieLegacyScadEmit.lean`), which is how the start state `abs (emptyModel path)` of the tie meets the `{}` of
   `Props/C18.lean`; observations are compared through the views (`ScadAgrees`, `Py/TieLegacyScadAgree.lean`).
+* The exception CLASS: `old_loader_error_class` (0.0.39: the class map of the `model` domain or one of eight listed,
+  witnessed pairs — `old_error_classes`, `old_loader_class_disagreements`) and `scad_loader_error_class` (securiCAD: the
+  class map, `return None` = `lookupError`, and the single pair `unmodelled` / `validation`).
 * The image conditions: `old_wf_of_saved_model`, `scad_objWf_of_saved_model` (`OldWf`, `DefsOkOf`, `NoExtras`, `ObjWf` hold
   for everything written for a coherent model), `old_loader_agrees_on_saved_model` (0.0.39 with no document hypothesis
   left), `scad_emit_empty_defense_counterexample` (`NoEmptyDefName` is needed).
@@ -229,6 +232,74 @@ theorem old_loader_unknown_entry_point_unmodelled :
     loadOld Legacy.Sample.lang (fun _ => true) d = .error .lookupError := by
   exact ⟨raisesL_eq (by decide +kernel), rejects_eq (by decide +kernel)⟩
 
+
+/-! ### 0.0.39: the exception class -/
+
+/-- **the translated 0.0.39 loader and `Legacy.loadOld`, with the exception class.**  The translated `_process_model` returns a
+model ⇒ `loadOld` computes its abstraction; it raises `e` ⇒ `loadOld` rejects with an error `er` such that `OldErrAgree e er`:
+the class `e` stands for (`oldErrAbs`, the class map of the `model` domain: `ValueError ↦ valueError`, `LookupError ↦
+lookupError`, pjs `ValidationError ↦ validation`, `DuplicateModelAssociationError`, `ModelAssociationException`; every
+class the hand model does not have — `AttributeError`, `KeyError`, … — ↦ `validation`) or one of the EIGHT listed pairs
+(`old_error_classes`), each of which is realised (`old_loader_class_disagreements`). -/
+theorem old_loader_error_class {env : ModelEnv} (hE : EqId env) (files : Files) (fac : Factory) (hL : FieldsDistinct fac.L)
+    (defsOk : Key → Bool) (nested : Bool) (name : String) (d : OldDoc) (hwf : OldWf fac.L nested d)
+    (hdefs : DefsOkOf fac d defsOk) (hfuel : d.assets.length ≤ env.whileFuel) :
+    match updater_process_model files env (encOld nested name d) fac with
+    | .ok s' => loadOldFrom fac.L defsOk (abs (emptyModel name)) d = .ok (abs s')
+    | .error e => ∃ er, loadOldFrom fac.L defsOk (abs (emptyModel name)) d = .error er ∧ OldErrAgree e er :=
+  process_model_tie_class hE files fac hL defsOk nested name d hwf hdefs hfuel
+
+/-- what `OldErrAgree` allows beyond the class map: exactly eight pairs, none of which is an agreement of classes -/
+theorem old_error_classes (e : LErr) (er : MS.Err) :
+    (OldErrAgree e er ↔ oldErrAbs e = some er ∨
+      (e, er) ∈ [(.unmodelled, .validation), (.unmodelled, .lookupError), (.unmodelled, .valueError),
+                 (.py .attributeError, .lookupError), (.py .attributeError, .valueError), (.validation, .valueError),
+                 (.py .valueError, .validation), (.py .valueError, .lookupError)]) ∧
+    (∀ p ∈ [((.unmodelled : LErr), (.validation : MS.Err)), (.unmodelled, .lookupError), (.unmodelled, .valueError),
+           (.py .attributeError, .lookupError), (.py .attributeError, .valueError), (.validation, .valueError),
+           (.py .valueError, .validation), (.py .valueError, .lookupError)], oldErrAbs p.1 ≠ some p.2) :=
+  ⟨oldErrAgree_iff e er, oldErr_disagreements_genuine⟩
+
+/-- **every one of the eight pairs occurs**, on a well-formed document (inside the hypotheses of `old_loader_error_class`),
+on the sample language: single faults — an unknown asset class (`AttributeError` / `lookupError`), a member id that is not a
+number (`ValueError` / `validation`), an entry-point id that is not a number (`ValueError` / `lookupError`); the Python
+does not raise — a `defenses` key that is not a defense (`unmodelled` / `validation`), an entry point for an unknown asset
+(`unmodelled` / `lookupError`); two faults in one entry, the hand model converts the key first — unknown class, bad value,
+unknown defense, each under a key that is not a number (… / `valueError`).  `k` is any key with `k.toInt? = none`. -/
+theorem old_loader_class_disagreements (k : Key) (hk : k.toInt? = none) :
+    (∃ d ok e er, (OldWf clsFac.L true d ∧ DefsOkOf clsFac d ok) ∧
+      updater_process_model clsFiles clsEnv (encOld true "m" d) clsFac = .error e ∧
+      loadOld Legacy.Sample.lang ok d = .error er ∧ e = .py .attributeError ∧ er = .lookupError) ∧
+    (∃ d ok e er, (OldWf clsFac.L true d ∧ DefsOkOf clsFac d ok) ∧
+      updater_process_model clsFiles clsEnv (encOld true "m" d) clsFac = .error e ∧
+      loadOld Legacy.Sample.lang ok d = .error er ∧ e = .py .valueError ∧ er = .validation) ∧
+    (∃ d ok e er, (OldWf clsFac.L true d ∧ DefsOkOf clsFac d ok) ∧
+      updater_process_model clsFiles clsEnv (encOld true "m" d) clsFac = .error e ∧
+      loadOld Legacy.Sample.lang ok d = .error er ∧ e = .py .valueError ∧ er = .lookupError) ∧
+    (∃ d ok e er, (OldWf clsFac.L true d ∧ DefsOkOf clsFac d ok) ∧
+      updater_process_model clsFiles clsEnv (encOld true "m" d) clsFac = .error e ∧
+      loadOld Legacy.Sample.lang ok d = .error er ∧ e = .unmodelled ∧ er = .validation) ∧
+    (∃ d ok e er, (OldWf clsFac.L true d ∧ DefsOkOf clsFac d ok) ∧
+      updater_process_model clsFiles clsEnv (encOld true "m" d) clsFac = .error e ∧
+      loadOld Legacy.Sample.lang ok d = .error er ∧ e = .unmodelled ∧ er = .lookupError) ∧
+    (∃ d ok e er, (OldWf clsFac.L true d ∧ DefsOkOf clsFac d ok) ∧
+      updater_process_model clsFiles clsEnv (encOld true "m" d) clsFac = .error e ∧
+      loadOld Legacy.Sample.lang ok d = .error er ∧ e = .py .attributeError ∧ er = .valueError) ∧
+    (∃ d ok e er, (OldWf clsFac.L true d ∧ DefsOkOf clsFac d ok) ∧
+      updater_process_model clsFiles clsEnv (encOld true "m" d) clsFac = .error e ∧
+      loadOld Legacy.Sample.lang ok d = .error er ∧ e = .validation ∧ er = .valueError) ∧
+    (∃ d ok e er, (OldWf clsFac.L true d ∧ DefsOkOf clsFac d ok) ∧
+      updater_process_model clsFiles clsEnv (encOld true "m" d) clsFac = .error e ∧
+      loadOld Legacy.Sample.lang ok d = .error er ∧ e = .unmodelled ∧ er = .valueError) := by
+  refine ⟨?_, ?_, ?_, ?_, ?_, ?_, ?_, ?_⟩
+  · obtain ⟨a, b, c⟩ := old_class_unknown_asset_class; exact ⟨_, _, _, _, a, b, c, rfl, rfl⟩
+  · obtain ⟨a, b, c⟩ := old_class_member_not_int k hk; exact ⟨_, _, _, _, a, b, c, rfl, rfl⟩
+  · obtain ⟨a, b, c⟩ := old_class_entry_point_not_int k hk; exact ⟨_, _, _, _, a, b, c, rfl, rfl⟩
+  · obtain ⟨a, b, c⟩ := old_class_unknown_defense; exact ⟨_, _, _, _, a, b, c, rfl, rfl⟩
+  · obtain ⟨a, b, c⟩ := old_class_unknown_entry_point; exact ⟨_, _, _, _, a, b, c, rfl, rfl⟩
+  · obtain ⟨a, b, c⟩ := old_class_unknown_asset_class_bad_key k hk; exact ⟨_, _, _, _, a, b, c, rfl, rfl⟩
+  · obtain ⟨a, b, c⟩ := old_class_bad_defense_value_bad_key k hk; exact ⟨_, _, _, _, a, b, c, rfl, rfl⟩
+  · obtain ⟨a, b, c⟩ := old_class_unknown_defense_bad_key k hk; exact ⟨_, _, _, _, a, b, c, rfl, rfl⟩
 
 /-! ### securiCAD -/
 
